@@ -28,7 +28,8 @@ from vlib.universe import Par, PO, POK, VP, KWO, VK
 LEVEL = 'exploration'
 RULE = ('non-trivial: >=1 annotated parameter (or return annotation) survives into the result and some function of the case is compiled with the '
         'future flag in globals of its own (or the case uses modifiers.annotate); distinct by (operation, function sources, environments, flags)')
-ASSUMPTIONS = ['annotation objects are distinct classes and an int; identity (`is`) is compared',
+ASSUMPTIONS = ['annotation objects are distinct classes and an int, compared by identity (`is`); the compound spellings list[X] and (Y, 0) build a '
+               'new object per evaluation and are compared structurally down to those objects',
                'the twin relation is checked on operations whose eager and postponed runs either both return or both raise']
 
 SPELL = ('X', 'Y', 'Z')
@@ -56,13 +57,35 @@ _decoy.X, _decoy.Y, _decoy.Z = A3, A3, A1
 _sys.modules['verif_c11_decoy'] = _decoy
 _counter = itertools.count()
 EMPTY = object()
+# spellings that build a new (equal) object every time they are evaluated
+COMPOUND = ('list[X]', '(Y, 0)')
+
+
+def same(a, b):
+    """Identity, or for the compound spellings equality of the freshly built objects."""
+    if a is b:
+        return True
+    if isinstance(a, tuple) and isinstance(b, tuple):
+        return len(a) == len(b) and all(same(x, y) for x, y in zip(a, b))
+    if isinstance(a, _types.GenericAlias) and isinstance(b, _types.GenericAlias):
+        return a.__origin__ is b.__origin__ and same(a.__args__, b.__args__)
+    return False
+
+
+def denote(sp, env):
+    """What a spelling denotes in an environment (by construction: the grammar of spellings is ours)."""
+    if sp == 'list[X]':
+        return list[env['X']]
+    if sp == '(Y, 0)':
+        return (env['Y'], 0)
+    return env[sp]
 
 
 def st_case():
     from hypothesis import strategies as st
 
     def ann(draw):
-        return draw(st.sampled_from([None, None, 'X', 'X', 'Y', 'Z']))
+        return draw(st.sampled_from([None, None, None, 'X', 'X', 'Y', 'Z', 'X', 'Y', 'list[X]', '(Y, 0)']))
 
     @st.composite
     def fn(draw, names, need_stars=False, max_named=3):
@@ -73,8 +96,10 @@ def st_case():
     @st.composite
     def build(draw):
         op = draw(st.sampled_from(['retrieve', 'merge', 'merge', 'merge3', 'embed', 'mask', 'forwards', 'forwards_partial', 'partial',
-                                   'kwoargs', 'posoargs', 'autokwoargs', 'annotate', 'discovery', 'discovery_chain']))
-        nfun = {'merge': 2, 'merge3': 3, 'embed': 2, 'forwards': 2, 'forwards_partial': 2, 'discovery': 2, 'discovery_chain': 3}.get(op, 1)
+                                   'kwoargs', 'posoargs', 'autokwoargs', 'annotate', 'discovery', 'discovery_chain', 'discovery_twice',
+                                   'replace_mixed']))
+        nfun = {'merge': 2, 'merge3': 3, 'embed': 2, 'forwards': 2, 'forwards_partial': 2, 'discovery': 2, 'discovery_chain': 3,
+                'discovery_twice': 2}.get(op, 1)
         if op in ('merge', 'merge3'):
             base = draw(fn(('a', 'b', 'c')))
             funcs = []
@@ -83,7 +108,7 @@ def st_case():
                 for p in f['spec']:
                     p[3] = ann(draw)
                 funcs.append(f)
-        elif op in ('embed', 'forwards', 'forwards_partial', 'discovery', 'discovery_chain'):
+        elif op in ('embed', 'forwards', 'forwards_partial', 'discovery', 'discovery_chain', 'discovery_twice'):
             funcs = [draw(fn(('a', 'b'), need_stars=True, max_named=2))]
             for i in range(1, nfun):
                 last = i == nfun - 1
@@ -183,8 +208,18 @@ def run_op(case, fns):
         else:
             d = modifiers.autokwoargs(fns[0])
         return sigtools.signature(d)
-    if op in ('discovery', 'discovery_chain'):
+    if op in ('discovery', 'discovery_chain', 'discovery_twice'):
         return sigtools.signature(fns[0])
+    if op == 'replace_mixed':
+        # a parameter list mixing the signature's own parameters with a plain inspect.Parameter (deprecated, accepted)
+        import inspect
+        import warnings
+        s0 = sigtools.signature(fns[0]) if ex['pick'] % 2 else sig(fns[0])
+        ps = list(s0.parameters.values())
+        cut = len(ps) - 1 if ps and ps[-1].kind == VK else len(ps)
+        with warnings.catch_warnings():
+            warnings.simplefilter('ignore')
+            return s0.replace(parameters=ps[:cut] + [inspect.Parameter('zz_extra', inspect.Parameter.KEYWORD_ONLY, default=0)] + ps[cut:])
     raise ValueError(op)
 
 
@@ -193,6 +228,9 @@ def bodies_for(case):
         return {0: 'return f1(%s)' % stars(case['funcs'][0])}
     if case['op'] == 'discovery_chain':
         return {0: 'return f1(%s)' % stars(case['funcs'][0]), 1: 'return f2(%s)' % stars(case['funcs'][1])}
+    if case['op'] == 'discovery_twice':
+        # two forwarding calls: the wrapper's own signature is merged with itself
+        return {0: 'f1(%s)\n    return f1(%s)' % (stars(case['funcs'][0]), stars(case['funcs'][0]))}
     return None
 
 
@@ -208,7 +246,7 @@ def stars(f):
 
 def link(case, fns, envs):
     """Discovery: the wrapper finds its callee as a global of its own module."""
-    if case['op'] in ('discovery', 'discovery_chain'):
+    if case['op'] in ('discovery', 'discovery_chain', 'discovery_twice'):
         for i in range(len(fns) - 1):
             fns[i].__globals__['f%d' % (i + 1)] = fns[i + 1]
 
@@ -240,7 +278,7 @@ def raw_annotations(sig):
 
 
 def show(d):
-    return dict((k, '-' if v is EMPTY else getattr(v, '__name__', repr(v))) for k, v in d.items())
+    return dict((k, '-' if v is EMPTY else v.__name__ if isinstance(v, type) else repr(v)) for k, v in d.items())
 
 
 def check_case(case, stats):
@@ -305,14 +343,39 @@ def check_case(case, stats):
                 stats.fail('C11/%s/evaluation-raised-%s' % (case['op'], type(e).__name__), case,
                            '%s -> %s: %s raised %s: %s' % (desc, P, 'evaluated()' if how else 'source_value()', type(e).__name__, e))
                 return
-            if list(got) != list(want) or any(got[k] is not want[k] for k in got):
-                diff = [k for k in got if k in want and got[k] is not want[k]]
+            if list(got) != list(want) or any(not same(got[k], want[k]) for k in got):
+                diff = [k for k in got if k in want and not same(got[k], want[k])]
                 kind = 'twin'
                 stats.fail('C11/%s/%s/%s' % (case['op'], kind, case['envmode'] if case['op'].startswith('merge') or case['op'] in ('embed', 'forwards', 'forwards_partial') else 'any'), case,
                            '%s\nwith the future flag -> %s, %s gives %r; the eager twins -> %s with %r (differs in %s)' % (
                                desc, P, 'evaluated()' if how else 'source_value()', show(got), E, show(want), diff))
                 return
         # (a) ground truth for single-definer results
+        if case['op'].startswith('merge'):
+            # merge: the annotation all annotated contributors agree on (by what it denotes where it was written), else none;
+            # for three inputs only the agreeing direction is asserted (the fold's treatment of conflicts is finding F8 of C10)
+            got = annotations_of(P, evaluated=False)
+            for name in got:
+                if name == 'return':
+                    continue
+                vals = []
+                for i, f in enumerate(case['funcs']):
+                    for p in f['spec']:
+                        if p[0] == name and p[3] is not None:
+                            vals.append(denote(p[3], penvs[0] if case['envmode'] == 'shared' else penvs[i]))
+                agree = bool(vals) and all(same(vals[0], v) for v in vals[1:])
+                if not vals:
+                    exp = EMPTY
+                elif agree:
+                    exp = vals[0]
+                elif len(case['funcs']) == 2:
+                    exp = EMPTY
+                else:
+                    continue
+                if not same(got[name], exp):
+                    stats.fail('C11/%s/ground-truth' % case['op'], case, '%s -> %s: annotation of %r resolves to %s; the annotated contributors denote %s' % (
+                        desc, P, name, show({name: got[name]})[name], [show({name: v})[name] for v in vals]))
+                    return
         if not case['op'].startswith('merge'):
             definer = {}
             for i, f in enumerate(case['funcs']):
@@ -326,12 +389,12 @@ def check_case(case, stats):
                     i, sp = definer[name]
                 else:
                     continue
-                exp = EMPTY if sp is None else OBJS[(case['envs'][0] if case['envmode'] == 'shared' else case['envs'][i])[sp]]
+                exp = EMPTY if sp is None else denote(sp, penvs[0] if case['envmode'] == 'shared' else penvs[i])
                 # star parameters of embed/forwards results may stand for both the outer's and the inner's
                 kindmap = dict((p[0], p[1]) for f in case['funcs'] for p in f['spec'])
-                if kindmap.get(name) in (VP, VK) and case['op'] in ('embed', 'forwards', 'forwards_partial', 'discovery', 'discovery_chain'):
+                if kindmap.get(name) in (VP, VK) and case['op'] in ('embed', 'forwards', 'forwards_partial', 'discovery', 'discovery_chain', 'discovery_twice'):
                     continue
-                if v is not exp:
+                if not same(v, exp):
                     stats.fail('C11/%s/ground-truth' % case['op'], case, '%s -> %s: annotation of %r resolves to %s, its spelling %r denotes %s in the defining globals' % (
                         desc, P, name, show({name: v})[name], sp, show({name: exp})[name]))
                     return
@@ -340,7 +403,13 @@ def check_case(case, stats):
         # and conflicts stay what they were when the functions were combined.
         if all(case['flags']):
             rot = {id(OBJS[0]): OBJS[1], id(OBJS[1]): OBJS[2], id(OBJS[2]): OBJS[0]}
-            turn = lambda v: rot.get(id(v), v)
+
+            def turn(v):
+                if isinstance(v, tuple):
+                    return tuple(turn(x) for x in v)
+                if isinstance(v, _types.GenericAlias):
+                    return v.__origin__[turn(v.__args__)]
+                return rot.get(id(v), v)
             for env in penvs:
                 for sp in SPELL:
                     env[sp] = turn(env[sp])
@@ -350,7 +419,7 @@ def check_case(case, stats):
                 stats.fail('C11/%s/late-binding-raised-%s' % (case['op'], type(e).__name__), case, '%s -> %s: after rebinding the spellings evaluated() raised %s: %s' % (desc, P, type(e).__name__, e))
                 return
             want_late = dict((k, turn(v)) for k, v in want.items())
-            if any(late[k] is not want_late[k] for k in late):
+            if any(not same(late[k], want_late[k]) for k in late):
                 stats.fail('C11/%s/late-binding' % case['op'], case,
                            '%s -> %s: after every spelling was rebound in the functions\' globals, evaluated() gives %r, expected %r' % (desc, P, show(late), show(want_late)))
                 return
@@ -407,13 +476,13 @@ def check_annotate(case, stats):
                 return
             for p in f['spec']:
                 name = p[0]
-                exp = vals[name] if name in vals else (EMPTY if p[3] is None else env[p[3]])
-                if got.get(name, EMPTY) is not exp:
+                exp = vals[name] if name in vals else (EMPTY if p[3] is None else denote(p[3], env))
+                if not same(got.get(name, EMPTY), exp):
                     stats.fail('C11/annotate/%s' % ('given-value' if name in vals else 'own-annotation'), case,
                                '%s -> %s: %s of %r is %r, expected %r' % (desc, R, 'evaluated()' if how else 'source_value()', name, got.get(name), exp))
                     return
-            exp = OBJS[ret] if ret is not None else (EMPTY if f['ret'] is None else env[f['ret']])
-            if got['return'] is not exp:
+            exp = OBJS[ret] if ret is not None else (EMPTY if f['ret'] is None else denote(f['ret'], env))
+            if not same(got['return'], exp):
                 stats.fail('C11/annotate/%s' % ('given-return' if ret is not None else 'own-return'), case,
                            '%s -> %s: %s of the return annotation is %r, expected %r' % (desc, R, 'evaluated()' if how else 'source_value()', got['return'], exp))
                 return
